@@ -24,7 +24,7 @@ def geStep (pref : Pref) (kn : List Nat) (st : GESt) (eqID : Nat) :
     Except Err (Sum (GESt × Option Nat) Nat) :=
   match pref with
   | .stored p =>
-    if st.i > kn.length then .error (.panic "slice bounds out of range: key[i>>3:]") else
+    if st.i / 2 > kn.length / 2 then .error (.panic "slice bounds out of range: key[i>>3:]") else
     match cmpUpto (kn.drop (st.i - st.i % 2)) p with
     | .eq => .ok (.inr (st.i - st.i % 2 + p.length))
     | .lt => .ok (.inl ({ st with rID := some eqID, rightPathLen := st.path.length }, none))
@@ -83,7 +83,7 @@ theorem geStep_stored (opt : Opt) (hin : opt.inner = true) (ks kn : List Nat) (s
     rw [hag, lexCmp_self]
     rfl
   · try rw [if_pos hin]
-    have hfl : ¬ st.i > kn.length := by omega
+    have hfl : ¬ st.i / 2 > kn.length / 2 := by omega
     have hplen : (storedPrefix ks st.i ws).length = ws - (st.i - st.i % 2) := by
       simp only [storedPrefix, List.length_drop, List.length_take]; omega
     have hcmp : cmpUpto (kn.drop (st.i - st.i % 2)) (storedPrefix ks st.i ws)
@@ -401,7 +401,7 @@ theorem geLoop_exact {keys : List Bytes} {keep : List Bool} {t : Trie1}
           obtain ⟨hsubc, _, hnodec⟩ := h.at hc'
           have hch : leftChildID r (labelIdxOfKey kn ws r.big)
               = ((r.firstChild : Int) - 1 + k, true) := by
-            rw [labelIdxOfKey_eq_labelAt, ← hkl, leftChildID_of_label r F.pw k hk']
+            rw [labelIdxOfKey_eq_labelAt _ _ _ hbw, ← hkl, leftChildID_of_label r F.pw k hk']
           have hR' := right_step F st.rID k hk' c hrun hR
           have hlabs := hrun.lab_s
           have hlabe := hrun.lab_e
@@ -505,7 +505,7 @@ theorem geLoop_exact {keys : List Bytes} {keep : List Bool} {t : Trie1}
               hbelow' habove' hR' (hRA' _) (hancpush k hk')
         · have hch : leftChildID r (labelIdxOfKey kn ws r.big)
               = ((r.firstChild : Int) - 1 + rankLabels r.labels (labelAt kn ws r.big), false) := by
-            rw [labelIdxOfKey_eq_labelAt]
+            rw [labelIdxOfKey_eq_labelAt _ _ _ hbw]
             exact leftChildID_absent r _ hmem
           rw [geBranch_absent _ _ _ r st j ws _ (rank_le _ _) hch]
           obtain ⟨a, hcut⟩ := mono_cut (labelOf keys ws r.big) o.s (labelAt kn ws r.big) o.e
@@ -544,7 +544,8 @@ theorem geLoop_exact {keys : List Bytes} {keep : List Bool} {t : Trie1}
 def geEpi (v : View) (key : Bytes) (x : GESt × Option Nat) : Except Err GEPath :=
   match x.2 with
   | some eq =>
-    if x.1.i > (nibs key).length then .error (.panic "slice bounds out of range: key[i>>3:]") else
+    if x.1.i / 2 > (nibs key).length / 2 then
+      .error (.panic "slice bounds out of range: key[i>>3:]") else
     if cmpLeafPrefix v (key.drop (x.1.i / 2)) x.1.lp != .gt then
       .ok { path := (eq :: x.1.path).reverse
             eq := cmpLeafPrefix v (key.drop (x.1.i / 2)) x.1.lp == .eq }
